@@ -56,6 +56,11 @@ void enum_cleanup()
                {
                   // nothing between CT_BRACE_OPEN and CT_BRACE_CLOSE
                }
+               else if (  prev->Is(CT_SEMICOLON)
+                       || prev->Is(CT_BRACE_CLOSE))
+               {
+                  // the enumerator list ended earlier (Java, C#: members follow it)
+               }
                else
                {
                   log_rule_B("mod_enum_last_comma");
